@@ -356,7 +356,7 @@ def gen_ctl(seed, tier, engine):
         cases.append(thr_case(rng, engine, "%s%d" % (engine, i), limit))
     j = 0
     for decl in RACE_CFGS[engine]:
-        for pre in itertools.product(range(3), repeat=4 if tier == "quick" else 8):
+        for pre in itertools.product(range(3), repeat=4 if tier == "quick" else 7):
             lim = [[0, 1]] if engine == "tlq" else []
             cases.append(Case(engine, "%sr%d" % (engine, j), lim + decl + [[9] + list(pre)])); j += 1
     if tier != "quick":
